@@ -1,7 +1,7 @@
 (* Properties/C09.v — JSON Patch operations conform to RFC 6902 and fail cleanly. *)
 From Coq Require Import List String Bool ZArith Arith.
 From YT Require Import Base.Str Base.KV Model.Doc Model.Dom Model.Pointer Model.Builder Model.Equals Model.Patch
-  Model.Path Model.Diff Model.Xform Proofs.PatchProofs Proofs.PatchLawsProofs Proofs.PropsPathProofs Proofs.XformProofs.
+  Model.Path Model.Diff Model.Xform Proofs.PatchProofs Proofs.PatchLawsProofs Proofs.PropsPathProofs Proofs.XformProofs Proofs.PathProofs Proofs.PropsCompProofs.
 Import ListNotations.
 Local Open Scope list_scope.
 
@@ -192,3 +192,30 @@ Example C09_diff_mod_ex :
   mod2pop (mkMod MChange "a.b[1].c" (SInt 5) (SInt 4)) = Some (PReplace ["a"; "b"; "1"; "c"]%string (Some (Leaf (SInt 5)))) /\
   mod2pop (mkMod MDelete "x[0][2]" SNull SNull) = Some (PRemove ["x"; "0"; "2"]%string).
 Proof. vm_compute. split; reflexivity. Qed.
+
+(* ---------- the path text of ANY modification (not only flatten-style ones over path-safe names): the reader cuts it at
+   its separators, one group of segments per component, and an EMPTY component inside the path is the segment with the
+   empty name ("srv..port" addresses member "" of srv); a separator at the END of the text is left out before the text is
+   cut, so the operation made of a modification at "c." is the one made of a modification at "c" — that is what the
+   code does, stated here so that the exclusion of such modifications from the RFC comparison (DESIGN 10.4) is exact. *)
+Theorem C09_prop_path_by_components : forall cs,
+  Forall (fun c => nodot (la c) = true) cs ->
+  nice (hd DOT (jl cs)) -> nice (last (jl cs) DOT) ->
+  props_parse (join_with "."%string cs) = flat_map comp_segs cs.
+Proof. exact props_parse_components. Qed.
+Print Assumptions C09_prop_path_by_components.
+Theorem C09_empty_component_is_the_empty_name : comp_segs "" = [PKey ""%string].
+Proof. exact comp_segs_empty. Qed.
+Print Assumptions C09_empty_component_is_the_empty_name.
+Theorem C09_trailing_separator_is_left_out : forall ty (t : string) v o,
+  nice (hd DOT (la t)) -> nice (last (la t) DOT) ->
+  mod2pop (mkMod ty (t ++ ".")%string v o) = mod2pop (mkMod ty t v o).
+Proof. exact mod2pop_trailing_separator. Qed.
+Print Assumptions C09_trailing_separator_is_left_out.
+
+Example C09_prop_path_ex :
+  mod2pop (mkMod MAdd "srv..port" (SInt 1) SNull) = Some (PAdd ["srv"; ""; "port"]%string (Some (Leaf (SInt 1)))) /\
+  mod2pop (mkMod MDelete "c." SNull SNull) = Some (PRemove ["c"]%string) /\
+  nice (hd DOT (la "c")) /\ nice (last (la "c") DOT) /\
+  Forall (fun c => nodot (la c) = true) ["srv"; ""; "port"]%string.
+Proof. vm_compute. repeat split; try reflexivity; repeat constructor. Qed.
